@@ -256,6 +256,31 @@ def FITERRSMALL : Nat := 1
 def FIXED2PSF : Nat := 4
 def NOTFIT : Nat := 16
 
+def c095 : α := R.ofSci 95 true 2
+
+/-! hand copies of the regenerated arithmetic leaves of `estimate_lmfit_parinfo` (fallbacks of
+    `Gen.C13.ampMinPos …`, used only when the translator reports UNTRANSLATABLE) -/
+def ampMinPosHand (amp r innerclip outerclip sampling : α) : α := c095 * R.min (outerclip * r) amp
+def ampMaxPosHand (amp r innerclip outerclip sampling : α) : α := amp * sampling + innerclip * r
+def ampMinNegHand (amp r innerclip outerclip sampling : α) : α := amp * sampling - innerclip * r
+def ampMaxNegHand (amp r innerclip outerclip sampling : α) : α := c095 * R.max ((-outerclip) * r) amp
+def summitArgPosHand (data rmsimg innerclip outerclip : α) : α := data - outerclip * rmsimg
+def summitArgNegHand (data rmsimg innerclip outerclip : α) : α := data + outerclip * rmsimg
+
+/-- the arithmetic leaves of `estimate_lmfit_parinfo` that are regenerated from source on every run:
+    the four amplitude-bound expressions `f amp r innerclip outerclip sampling` and the two
+    thresholded quantities of the summit masks `g data rmsimg innerclip outerclip` -/
+structure Leaves (α : Type) where
+  ampMinPos : α → α → α → α → α → α
+  ampMaxPos : α → α → α → α → α → α
+  ampMinNeg : α → α → α → α → α → α
+  ampMaxNeg : α → α → α → α → α → α
+  summitArgPos : α → α → α → α → α
+  summitArgNeg : α → α → α → α → α
+
+def handLeaves : Leaves α :=
+  ⟨ampMinPosHand, ampMaxPosHand, ampMinNegHand, ampMaxNegHand, summitArgPosHand, summitArgNegHand⟩
+
 /-- what `estimate_lmfit_parinfo` is given for one island -/
 structure Island (α : Type) where
   h : Nat
@@ -271,6 +296,8 @@ structure Params (α : Type) where
   inner : α
   outer : α
   maxSummits : Option Nat
+  /-- the regenerated leaves (`C13Glue.genLeaves`; `handLeaves` only as a reference) -/
+  leaves : Leaves α
 
 /-- the negated problem: data negated, curvature negated (see `curvature_negation`) -/
 def negI (I : Island α) : Island α :=
@@ -309,14 +336,15 @@ def boxOf (px : List Px) : Summit :=
     xmin := rs.foldl Nat.min (rs.headD 0), xmax := rs.foldl Nat.max 0 + 1,
     ymin := cs.foldl Nat.min (cs.headD 0), ymax := cs.foldl Nat.max 0 + 1 }
 
-/-- the summit mask: `curve > 0.5 ∧ data + outer·rms < 0` (negative island) or
-    `−curve > 0.5 ∧ data − outer·rms > 0` (positive island); NaN data ⇒ not a summit pixel -/
-def summitMask (neg : Bool) (I : Island α) (outer : α) : Px → Bool := fun p =>
+/-- the summit mask (glue around the regenerated arguments): `curve > 0.5 ∧ argNeg < 0` (negative
+    island, `argNeg = data + outer·rms`) or `−curve > 0.5 ∧ argPos > 0` (positive island,
+    `argPos = data − outer·rms`); NaN data ⇒ not a summit pixel -/
+def summitMask (neg : Bool) (I : Island α) (P : Params α) : Px → Bool := fun p =>
   match I.data p with
   | none => false
   | some d =>
-    if neg then decide (1 ≤ I.curve p) && Cmp.lt (d + outer * I.rms p) zero
-    else decide (I.curve p ≤ -1) && Cmp.lt zero (d - outer * I.rms p)
+    if neg then decide (1 ≤ I.curve p) && Cmp.lt (P.leaves.summitArgNeg d (I.rms p) P.inner P.outer) zero
+    else decide (I.curve p ≤ -1) && Cmp.lt zero (P.leaves.summitArgPos d (I.rms p) P.inner P.outer)
 
 /-- summits of a non-tiny island: 4-connected components (`scipy.ndimage.label` default) of the mask -/
 def summitsOfMask (h w : Nat) (mask : Px → Bool) : List Summit :=
@@ -371,16 +399,15 @@ def belowInner (I : Island α) (s : Summit) (inner : α) : Bool :=
   | some x => Cmp.lt x inner
   | none => false
 
-def c095 : α := R.ofSci 95 true 2
-
-/-- `(amp_min, amp_max)`, the two branches on `amp > 0`.  `samp` is the code's
-    `sampling = max(1.05, 2.0 ** (2.0 / pixbeam.b ** 2))` at the summit's peak pixel (the allowance for the
-    pixelisation loss; an input of the model: it comes from the psf helper and does not depend on sign) -/
-def ampBounds (amp r inner outer samp : α) : α × α :=
+/-- `(amp_min, amp_max)`: the glue around the four regenerated expressions — the branch on
+    `amp > 0` (checked structurally by the slicer).  `samp` is the code's
+    `sampling = max(1.05, 2.0 ** (2.0 / pixbeam.b ** 2))` at the summit's peak pixel (an input: it
+    comes from the psf helper and does not depend on sign) -/
+def ampBounds (L : Leaves α) (amp r inner outer samp : α) : α × α :=
   if Cmp.lt zero amp then
-    (c095 * R.min (outer * r) amp, amp * samp + inner * r)
+    (L.ampMinPos amp r inner outer samp, L.ampMaxPos amp r inner outer samp)
   else
-    (amp * samp - inner * r, c095 * R.max ((-outer) * r) amp)
+    (L.ampMinNeg amp r inner outer samp, L.ampMaxNeg amp r inner outer samp)
 
 /-- the sign-relevant content of one component's lmfit Parameters -/
 structure Comp (α : Type) where
@@ -402,7 +429,7 @@ def loop (P : Params α) (I : Island α) (neg : Bool) (isFlag : Nat) : Nat → L
     | some (p, amp) =>
       if belowInner I s P.inner then loop P I neg isFlag i rest
       else
-        let b := ampBounds amp (I.rms p) P.inner P.outer (I.sampling p)
+        let b := ampBounds P.leaves amp (I.rms p) P.inner P.outer (I.sampling p)
         let maxxed := match P.maxSummits with
           | some m => decide (m ≤ i)
           | none => false
@@ -416,7 +443,7 @@ def estimate (P : Params α) (I : Island α) : Option (List (Comp α)) :=
   let neg := isNegative I
   let fl0 := islandFlag (finitePx I).length
   let t := tiny I.h I.w fl0
-  let summits := if t then [wholeSummit I] else summitsOfMask I.h I.w (summitMask neg I P.outer)
+  let summits := if t then [wholeSummit I] else summitsOfMask I.h I.w (summitMask neg I P)
   let fl := if t then fl0 ||| FIXED2PSF else fl0
   if summits.isEmpty then none else some (loop P I neg fl 0 (sortSummits I summits))
 
